@@ -10,6 +10,7 @@ cp -r /repo/src "$D/src"
 cd /verif
 VERIF_REPO="$D" VERIF_NO_EVIDENCE=1 /venv/bin/python harness/check.py "$PROP" "$@" 2>&1 | tail -4 | cut -c1-300
 RC=${PIPESTATUS[0]}
+/venv/bin/python /verif/harness/regen.py "$PROP" >/dev/null 2>&1
 rm -rf "$D"
 echo "exit=$RC"
 exit $RC
